@@ -2,6 +2,7 @@
 are hypotheses of the composite theorem, and the parse stage (a theorem: Proofs/PipelineParse). -/
 import Ctrmml.Proofs.PipelineValidate
 import Ctrmml.Proofs.PipelineParse
+import Ctrmml.Proofs.PipelineNoEnd
 namespace Ctrmml.Pipeline
 open Ctrmml
 
@@ -16,6 +17,47 @@ theorem parseStage_routed (text : List Nat) : (parseStage text).routed := by
     cases e with
     | input m r => exact h
     | foreign k => exact h.elim
+
+theorem kind_fin_type (t : Nat) (h : kindOfType t = .fin) : t = Tables.ev_END := by
+  unfold kindOfType at h
+  repeat' split at h
+  all_goals first | assumption | cases h
+
+/-- the reader emits no explicit `END` event: every parsed song is in the domain of C04 -/
+theorem parseStage_noEnd (text : List Nat) (st : Mml.MmlState) (h : parseStage text = .ok st) :
+    hasEndEvent (songOf st) = false := by
+  have hs : Mml.SOk st := by
+    have hp := (MmlFix.pres_readLines (splitLines text) 0).pres Mml.MmlState.init (by intro p hp; simp [Mml.MmlState.init] at hp)
+    unfold parseStage at h
+    cases hr : MmlFix.readLines 0 (splitLines text) Mml.MmlState.init with
+    | ok a s' =>
+      rw [hr] at h hp
+      injection h with h
+      subst h
+      exact hp
+    | err e s' =>
+      rw [hr] at h
+      cases e <;> cases h
+  cases hb : hasEndEvent (songOf st) with
+  | false => rfl
+  | true =>
+    exfalso
+    unfold hasEndEvent at hb
+    rw [List.any_eq_true] at hb
+    obtain ⟨p, hp, hb⟩ := hb
+    rw [List.any_eq_true] at hb
+    obtain ⟨e, he, hk⟩ := hb
+    simp only [songOf, Refs.rsongOf, Refs.RSong.erase, List.map_map, List.mem_map] at hp
+    obtain ⟨q, hq, rfl⟩ := hp
+    simp only [Function.comp, Refs.eraseTrack, List.mem_map] at he
+    obtain ⟨be, hbe, rfl⟩ := he
+    have hty : be.type ≠ Tables.ev_END := by
+      apply hs q hq be
+      simpa [TrackBuilder.Track.events] using hbe
+    apply hty
+    apply kind_fin_type
+    have : (TrackBuilder.BEvent.toEvent be).kind = Kind.fin := by simpa using hk
+    exact this
 
 /-! ### the stages that are hypotheses -/
 
@@ -40,7 +82,6 @@ structure StageHyps (u : Residual) (opt : Bool) (fmt : Format) : Prop where
   vgmPlay : ∀ inp d, (u.vgmPlay inp d).routed
   link : ∀ b, (u.link b).routed
   mdsGap : ∀ inp, (u.mdsGap inp).routed
-  endEvent : ∀ st, (u.endEvent st).routed
 
 theorem ferrOut_routed {α : Type} (inp : MdsFile.Input) (gap : MdsFile.Input → Out α) (hg : ∀ i, (gap i).routed)
     (e : MdsFile.FErr) (he : ferrIsUB e = false) : (ferrOut inp gap e).routed := by
